@@ -3,6 +3,7 @@
 //! Every `MessageSendEvent` is split into individually deliverable wire messages kept in one FIFO per
 //! directed link. Nothing moves unless an operation says so.
 
+use crate::chain::{ChainSim, Reject};
 use crate::rec::*;
 use crate::world::*;
 use bitcoin::secp256k1::PublicKey;
@@ -94,10 +95,19 @@ pub enum SEvent {
 	/// a `HandleError` action surfaced by `from` concerning peer `to`
 	ErrorAction { from: usize, to: usize, action: String, is_error_msg: bool, disconnect: bool },
 	Ldk { node: usize, ev: Event },
-	Broadcast { node: usize, tx: Transaction },
+	/// `verdict`: what the consensus simulator says about the transaction as a candidate for the next block
+	Broadcast { node: usize, tx: Transaction, height: u32, verdict: Result<u64, Reject> },
+	/// a block was mined on the global chain (height) with these transactions
+	Mined { height: u32, txids: Vec<bitcoin::Txid> },
+	/// the tip was disconnected down to (and excluding) this height
+	Reorged { to_height: u32 },
+	/// a block was delivered to a node
+	BlockDelivered { node: usize, height: u32 },
 	Disconnect { a: usize, b: usize },
 	Reconnect { a: usize, b: usize },
 	Api { node: usize, what: String, ok: bool, detail: String },
+	/// node restarted from a manager snapshot taken at `snapshot_step` and monitors at these update ids
+	Restart { node: usize, snapshot_step: u64, monitor_ids: Vec<(ChannelId, u64)>, ok: bool, detail: String },
 	/// the harness corrupted the secret of a queued revoke_and_ack (adversarial sub-profile of C05)
 	Tamper { from: usize, to: usize, secret: [u8; 32] },
 }
@@ -160,6 +170,13 @@ pub struct Sim {
 	pub next_payment_id: u64,
 	/// HandleError actions are emulated like PeerManager does (disconnect) when true
 	pub emulate_disconnects: bool,
+	pub chain: ChainSim,
+	/// manager snapshots per node: (step, bytes)
+	pub snapshots: Vec<Vec<(u64, Vec<u8>)>>,
+	/// reorgs never go below this height (channel establishment is not reorged)
+	pub min_reorg_floor: u32,
+	/// description of the last failed restart (deserialization error), if any
+	pub last_restart_error: Option<String>,
 }
 
 fn pair(a: usize, b: usize) -> (usize, usize) {
@@ -183,7 +200,8 @@ impl Sim {
 				}
 			}
 		}
-		Sim { w, links, connected, chans: vec![], pays: vec![], log: vec![], broadcasts: vec![vec![]; n], next_payment_id: 1, emulate_disconnects: true }
+		let genesis = w.nodes[0].blocks.lock().unwrap()[0].0.clone();
+		Sim { w, links, connected, chans: vec![], pays: vec![], log: vec![], broadcasts: vec![vec![]; n], next_payment_id: 1, emulate_disconnects: true, chain: ChainSim::new(genesis), snapshots: vec![vec![]; n], min_reorg_floor: 0, last_restart_error: None }
 	}
 
 	pub fn rec(&mut self, e: SEvent) {
@@ -199,8 +217,61 @@ impl Sim {
 		&self.w.nodes[i]
 	}
 
-	/// Open a channel a->b (a funds) with the blocking test helpers (synchronous persistence assumed),
-	/// capturing the negotiated parameters from `open_channel` / `accept_channel`.
+	/// Mine a block on the global chain containing `txs` (invalid ones are skipped and returned) and deliver
+	/// it to every node.
+	pub fn mine_block(&mut self, txs: Vec<Transaction>) -> Vec<(bitcoin::Txid, Reject)> {
+		let (block, rejected) = self.chain.mine(txs);
+		let height = self.chain.height();
+		self.rec(SEvent::Mined { height, txids: block.txdata.iter().map(|t| t.compute_txid()).collect() });
+		for i in 0..self.w.n {
+			self.deliver_block(i, &block);
+		}
+		rejected
+	}
+
+	pub fn mine_empty(&mut self, n: u32) {
+		for _ in 0..n {
+			self.mine_block(vec![]);
+		}
+	}
+
+	/// Hand one block of the global chain to one node, in that node's current connect style.
+	pub fn deliver_block(&mut self, node: usize, block: &bitcoin::Block) {
+		connect_block(&self.w.nodes[node], block);
+		let height = self.w.nodes[node].best_block_info().1;
+		self.rec(SEvent::BlockDelivered { node, height });
+		self.w.nodes[node].chain_monitor.added_monitors.lock().unwrap().clear();
+		self.drain(node);
+	}
+
+	/// Disconnect `depth` blocks from the tip of the global chain and of every node's view.
+	pub fn reorg_disconnect(&mut self, depth: u32) {
+		for _ in 0..depth {
+			self.chain.disconnect_tip();
+		}
+		for i in 0..self.w.n {
+			disconnect_blocks(&self.w.nodes[i], depth);
+			self.drain(i);
+		}
+		let to_height = self.chain.height();
+		self.rec(SEvent::Reorged { to_height });
+	}
+
+	/// Give every node on-chain funds for anchor bumping: `utxos` outputs of one bitcoin each.
+	pub fn fund_wallets(&mut self, utxos: usize) {
+		let mut output = vec![];
+		for nd in self.w.nodes.iter() {
+			let spk = lightning::util::wallet_utils::WalletSourceSync::get_change_script(&*nd.wallet_source).unwrap();
+			for _ in 0..utxos {
+				output.push(bitcoin::TxOut { value: bitcoin::Amount::ONE_BTC, script_pubkey: spk.clone() });
+			}
+		}
+		let tx = Transaction { version: bitcoin::transaction::Version::TWO, lock_time: bitcoin::absolute::LockTime::ZERO, input: vec![], output };
+		self.mine_block(vec![tx]);
+	}
+
+	/// Open a channel a->b (a funds) on the global chain (synchronous persistence assumed), capturing the
+	/// negotiated parameters from `open_channel` / `accept_channel`.
 	pub fn open_channel(&mut self, a: usize, b: usize, value_sat: u64, push_msat: u64) -> usize {
 		let ida = self.w.node_id(a);
 		let idb = self.w.node_id(b);
@@ -215,12 +286,35 @@ impl Sim {
 			let tx = sign_funding_transaction(na, nb, value_sat, temp_id);
 			(tx, open, accept)
 		};
-		let id = {
-			let (msgs, id) = create_chan_between_nodes_with_value_confirm(&self.w.nodes[a], &self.w.nodes[b], &tx);
-			let (ann, upd_a, upd_b) = create_chan_between_nodes_with_value_b(&self.w.nodes[a], &self.w.nodes[b], &msgs);
-			update_nodes_with_chan_announce(&self.w.nodes, a, b, &ann, &upd_a, &upd_b);
-			id
-		};
+		// confirm on the global chain; every node sees the same blocks
+		let saved_emulate = self.emulate_disconnects;
+		let (block, _) = self.chain.mine(vec![tx.clone()]);
+		let mut blocks = vec![block];
+		for _ in 0..(CHAN_CONFIRM_DEPTH - 1) {
+			blocks.push(self.chain.mine(vec![]).0);
+		}
+		for blk in blocks.iter() {
+			for i in 0..self.w.n {
+				connect_block(&self.w.nodes[i], blk);
+			}
+		}
+		self.emulate_disconnects = saved_emulate;
+		// exchange channel_ready / announcement signatures / channel_update through the harness transport
+		let id = ChannelId::v1_from_funding_txid(tx.compute_txid().as_ref(), 0);
+		for _ in 0..20 {
+			self.drain_all();
+			let live: Vec<(usize, usize)> = self.links.iter().filter(|(_, q)| !q.is_empty()).map(|(k, _)| *k).collect();
+			if live.is_empty() {
+				break;
+			}
+			for (f, t) in live {
+				while self.deliver(f, t, 1) > 0 {}
+			}
+		}
+		for i in [a, b] {
+			let usable = self.w.nodes[i].node.list_channels().iter().any(|c| c.channel_id == id && c.is_channel_ready);
+			assert!(usable, "harness: channel did not become ready on node {}", i);
+		}
 		let scid = self.w.nodes[a].node.list_channels().iter().find(|c| c.channel_id == id).and_then(|c| c.short_channel_id).unwrap();
 		for nd in self.w.nodes.iter() {
 			nd.chain_monitor.added_monitors.lock().unwrap().clear();
@@ -230,6 +324,66 @@ impl Sim {
 		}
 		self.chans.push(ChanInfo { a, b, id, scid, value_sat, push_msat, funding_tx: tx, open, accept });
 		self.chans.len() - 1
+	}
+
+	/// Stop `node` and restart it from the `snap`-th newest manager snapshot and, per channel, the durable
+	/// monitor image (or the latest written one if `landed`). All its connections drop.
+	pub fn restart(&mut self, node: usize, snap: u16, landed: bool) -> Result<(), String> {
+		if self.snapshots[node].is_empty() {
+			self.snapshot_manager(node);
+		}
+		let k = self.snapshots[node].len();
+		let idx = k - 1 - vcore::pick(snap, k);
+		let (snap_step, mgr_bytes) = self.snapshots[node][idx].clone();
+		let (images, ids): (Vec<Vec<u8>>, Vec<(ChannelId, u64)>) = {
+			let st = self.w.persisters[node].state.lock().unwrap();
+			let mut images = vec![];
+			let mut ids = vec![];
+			let keys: Vec<ChannelId> = st.durable.keys().cloned().collect();
+			for c in keys {
+				let (id, bytes) = if landed { st.latest.get(&c).unwrap_or(&st.durable[&c]).clone() } else { st.durable[&c].clone() };
+				ids.push((c, id));
+				images.push(bytes);
+			}
+			(images, ids)
+		};
+		// connections drop; whatever was queued is lost
+		let peers: Vec<usize> = (0..self.w.n).filter(|j| *j != node && self.is_connected(node, *j)).collect();
+		for j in 0..self.w.n {
+			if j != node && self.is_connected(node, j) {
+				self.connected.remove(&pair(node, j));
+				for (f, t) in [(node, j), (j, node)] {
+					let q: Vec<Wire> = self.links.get_mut(&(f, t)).unwrap().drain(..).collect();
+					for wire in q {
+						self.rec(SEvent::Dropped { from: f, to: t, wire });
+					}
+				}
+				self.rec(SEvent::Disconnect { a: node, b: j });
+			}
+		}
+		let r = self.w.restart(node, &mgr_bytes, &images, &peers);
+		self.rec(SEvent::Restart { node, snapshot_step: snap_step, monitor_ids: ids, ok: r.is_ok(), detail: r.clone().err().unwrap_or_default() });
+		if let Err(e) = &r {
+			self.last_restart_error = Some(e.clone());
+			return r;
+		}
+		// snapshots newer than the one used are gone (the node really went back to that state)
+		self.snapshots[node].truncate(idx + 1);
+		for j in 0..self.w.n {
+			if j != node {
+				self.drain(j);
+			}
+		}
+		self.drain(node);
+		Ok(())
+	}
+
+	/// Serialize the node's ChannelManager now and keep it as a restart candidate.
+	pub fn snapshot_manager(&mut self, node: usize) {
+		use lightning::util::ser::Writeable;
+		let bytes = self.w.nodes[node].node.encode();
+		let s = hist_tick();
+		self.snapshots[node].push((s, bytes));
 	}
 
 	pub fn chan_details(&self, node: usize, chan: usize) -> Option<ChannelDetails> {
@@ -259,7 +413,9 @@ impl Sim {
 		let txs = self.w.nodes[node].tx_broadcaster.txn_broadcast();
 		for tx in txs {
 			self.broadcasts[node].push(tx.clone());
-			self.rec(SEvent::Broadcast { node, tx });
+			let verdict = self.chain.broadcast(&tx);
+			let height = self.chain.height();
+			self.rec(SEvent::Broadcast { node, tx, height, verdict });
 		}
 	}
 
@@ -590,7 +746,12 @@ impl Sim {
 
 	/// Register an inbound payment at `to` and send it from `from` over `chans`. Returns the payment index.
 	pub fn send(&mut self, from: usize, chans: &[usize], amt_msat: u64) -> usize {
-		let (route, nodes) = self.build_route(from, chans, amt_msat, TEST_FINAL_CLTV).expect("route");
+		self.try_send(from, chans, amt_msat).expect("route")
+	}
+
+	/// Like [`Sim::send`] but returns None when no route can be built (a channel on the path is gone).
+	pub fn try_send(&mut self, from: usize, chans: &[usize], amt_msat: u64) -> Option<usize> {
+		let (route, nodes) = self.build_route(from, chans, amt_msat, TEST_FINAL_CLTV)?;
 		let to = *nodes.last().unwrap();
 		let (preimage, hash, secret) = get_payment_preimage_hash(&self.w.nodes[to], None, None);
 		let idn = self.next_payment_id;
@@ -620,7 +781,7 @@ impl Sim {
 		});
 		self.w.nodes[from].chain_monitor.added_monitors.lock().unwrap().clear();
 		self.drain(from);
-		self.pays.len() - 1
+		Some(self.pays.len() - 1)
 	}
 
 	pub fn claim(&mut self, pay: usize) {
